@@ -90,7 +90,7 @@ pub fn checks() -> Vec<Check> {
             Part { name: bitmap::CONC.name(), xen: false, quick: 3_000_000, thorough: 150_000_000 },
             Part { name: bitmap::CANON.name(), xen: false, quick: 300_000, thorough: 3_000_000 },
         ],
-        rule: "runs are seeded executions of 2-3 coroutine actors doing 1-4 bitmap operations each, switched at every atomic word operation; distinct = distinct event-log hash (operations + interleaving of atomic steps); non-trivial = at least one context switch happened inside an operation and at least one mark and one harvest/reset/clone ran",
+        rule: "runs are seeded executions of 2-3 coroutine actors doing 1-4 bitmap operations each, switched at every atomic word operation (marks through every slice view incl. Bitmap::slice_at, resets of ranges that cross word boundaries; what an operation is owed to set / allowed to clear comes from the page-set model); distinct = distinct event-log hash (operations + interleaving of atomic steps); non-trivial = at least one context switch happened inside an operation and at least one mark and one harvest/reset/clone ran",
         assumptions: COMMON_ASSUMPTIONS.to_vec(),
         real: vec!["vm_memory::bitmap::AtomicBitmap, RefSlice, ArcSlice, Option<B> (compiled from /repo working tree)", "std atomics (executed atomically between yield points)"],
         stub: vec!["thread scheduling (coroutines under the seeded scheduler)"],
@@ -99,7 +99,7 @@ pub fn checks() -> Vec<Check> {
     v.push(Check {
         prop: "C09",
         parts: vec![Part { name: bitmap::MODEL.name(), xen: false, quick: 300_000, thorough: 20_000_000 }],
-        rule: "runs are seeded histories of up to 40 public bitmap operations by 1-3 actors switched between operations, checked step by step against a BTreeSet model; distinct = distinct event-log hash; non-trivial = at least one state-changing operation had an effect and at least one out-of-range or ignored request occurred",
+        rule: "runs are seeded histories of up to 40 public bitmap operations by 1-3 actors switched between operations, checked step by step against a BTreeSet model (views through RefSlice / ArcSlice / Bitmap::slice_at incl. bases beyond the end, enlarge, clone, clone_from into a second bitmap of unrelated geometry); distinct = distinct event-log hash; non-trivial = at least one state-changing operation had an effect and at least one out-of-range or ignored request occurred",
         assumptions: COMMON_ASSUMPTIONS.to_vec(),
         real: vec!["vm_memory::bitmap::AtomicBitmap, BaseSlice/RefSlice/ArcSlice, Option<B>, () (compiled from /repo working tree)"],
         stub: vec!["actor interleaving at operation granularity (seeded)"],
@@ -108,7 +108,7 @@ pub fn checks() -> Vec<Check> {
     v.push(Check {
         prop: "C04",
         parts: vec![Part { name: mem::MEM.name(), xen: false, quick: 1_500_000, thorough: 60_000_000 }, Part { name: "S-mem", xen: true, quick: 300_000, thorough: 15_000_000 }],
-        rule: "runs are seeded histories of up to 30 accessor operations (buffers, objects, typed refs, element arrays, element-wise and slice-to-slice copies, atomics, references, in-memory streams) by 1-3 actors switched between operations on 1-2 containers (VolatileSlice over simulated RAM with guard pages and canaries, or an anonymous MmapRegion), reached through derivation chains; distinct = distinct event-log hash; non-trivial = at least one operation succeeded and at least one was rejected or cut off",
+        rule: "runs are seeded histories of up to 30 accessor operations (buffers, objects, typed refs, element arrays, element-wise and slice-to-slice copies, atomics, references, in-memory streams) by 1-3 actors switched between operations on 1-2 containers (VolatileSlice over simulated RAM with guard pages and canaries, or an anonymous MmapRegion), reached through derivation chains, plus derivation requests with offsets / counts around the end of the accessor and the address-space / usize limits, element indexes past the end, aligned references of types whose size differs from their alignment, stream reads from &[u8] / Cursor / a real file; distinct = distinct event-log hash; non-trivial = at least one operation succeeded and at least one was rejected or cut off",
         assumptions: COMMON_ASSUMPTIONS.to_vec(),
         real: vec!["vm_memory::volatile_memory (VolatileSlice, VolatileRef, VolatileArrayRef, copy_slice_impl), Bytes, MmapRegion (compiled from /repo working tree)", "kernel mmap for the region container"],
         stub: vec!["guest RAM: the simulator's own arena with PROT_NONE guard pages and canary bytes", "actor interleaving at operation granularity (seeded)"],
@@ -117,7 +117,7 @@ pub fn checks() -> Vec<Check> {
     v.push(Check {
         prop: "C06",
         parts: vec![Part { name: tear::TEAR.name(), xen: false, quick: 3_000_000, thorough: 150_000_000 }],
-        rule: "runs are seeded races of one writer (alternating two values, <= 3 writes) and one reader (<= 3 reads) on the same 1-8 guest bytes through one of 12 entry points each, at slice / region / guest-memory level, switched before every primitive guest access (and between the bytes of a bulk copy); distinct = distinct event-log hash; non-trivial = a context switch happened inside an operation and at least one side is in the class for which atomicity is demanded (length 1/2/4/8, guest and local address aligned to it)",
+        rule: "runs are seeded races of one writer (alternating two values, <= 3 writes) and one reader (<= 3 reads) on the same 1-8 guest bytes through one of 12 entry points each, at slice / region / guest-memory level, switched before every primitive guest access (and between the bytes of a bulk copy), plus sequential add-ons in the same run: atomic ordering probe, atomic accesses around the seam of two touching regions, local buffers touching the guest target; distinct = distinct event-log hash; non-trivial = a context switch happened inside an operation and at least one side is in the class for which atomicity is demanded (length 1/2/4/8, guest and local address aligned to it)",
         assumptions: COMMON_ASSUMPTIONS.to_vec(),
         real: vec!["vm_memory copy_slice_impl, VolatileSlice/VolatileRef/VolatileArrayRef, Bytes at slice/region/guest-memory level, in-memory stream adapters, atomic load/store (compiled from /repo working tree)"],
         stub: vec!["thread scheduling (coroutines)", "the second party: a simulated vCPU doing one raw aligned access", "memcpy of the > 8-byte branch replaced by a byte-wise copy with a scheduling point between bytes (models a tearing memcpy)"],
@@ -126,7 +126,7 @@ pub fn checks() -> Vec<Check> {
     v.push(Check {
         prop: "C14",
         parts: vec![Part { name: stream::STREAM.name(), xen: false, quick: 2_000_000, thorough: 100_000_000 }],
-        rule: "runs are 1-3 stream transfers (read_volatile_from, read_exact_volatile_from, write_volatile_to, write_all_volatile_to, the default exact loops) on a slice, a region or guest memory of 2-3 regions (touching or with holes), driven against a scripted reader/writer whose per-call behaviour (full, short by k, zero, interrupted xN, hard error of several kinds) comes from the tape; distinct = distinct event-log hash; non-trivial = the script of at least one transfer contained a fault",
+        rule: "runs are 1-3 stream transfers (read_volatile_from, read_exact_volatile_from, write_volatile_to, write_all_volatile_to, the default exact loops) on a slice, a region or guest memory of 2-3 regions (touching or with holes), driven against a scripted reader/writer whose per-call behaviour (full, short by k, zero, interrupted xN, hard error of several kinds) comes from the tape with a scripted endpoint, a real descriptor under injected read(2)/write(2) results or one of the crate's own in-memory adapters (running dry / filling up), interruption bursts of up to 70 calls; distinct = distinct event-log hash; non-trivial = the script of at least one transfer contained a fault",
         assumptions: COMMON_ASSUMPTIONS.to_vec(),
         real: vec!["vm_memory::io default loops and retry_eintr!, VolatileSlice / GuestRegionMmap / GuestMemory stream methods, try_access (compiled from /repo working tree)", "kernel mmap for regions"],
         stub: vec!["the stream endpoint: a scripted ReadVolatile/WriteVolatile implementation whose outcomes the tape decides"],
@@ -147,7 +147,7 @@ pub fn checks() -> Vec<Check> {
     v.push(Check {
         prop: "C03",
         parts: vec![Part { name: gm::GM.name(), xen: false, quick: 1_000_000, thorough: 50_000_000 }, Part { name: "S-gm", xen: true, quick: 300_000, thorough: 15_000_000 }],
-        rule: "runs are seeded histories of up to 14 operations (buffer / slice / object / atomic / stream accesses at guest-memory level, accesses through get_slice + derivation and through find_region) by 1-3 actors switched between operations on a layout of 1-4 regions (anonymous or memfd-backed, in the standard build and as Xen-UNIX mappings in the xen build; touching, 1-byte holes, huge holes, at 0, ending at the top of the address space); after every step all regions are re-read through host pointers and backing files and compared with a flat sparse byte-array model; distinct = distinct event-log hash; non-trivial = at least one operation succeeded and one was rejected or cut off",
+        rule: "runs are seeded histories of up to 14 operations (buffer / slice / object / atomic / stream accesses at guest-memory level, accesses through get_slice + derivation and through find_region) by 1-3 actors switched between operations on a layout of 1-4 regions (anonymous or memfd-backed, in the standard build and as Xen-UNIX mappings in the xen build; touching, 1-byte holes, huge holes, at 0, ending at the top of the address space); after every step all regions are re-read through host pointers and backing files and compared with a flat sparse byte-array model, descriptor and scripted-stream transfers with faults on later chunks, region-level slice / object / atomic / stream forms through find_region, guest-to-guest copies through typed arrays and slices, remove_region / insert_region steps; distinct = distinct event-log hash; non-trivial = at least one operation succeeded and one was rejected or cut off",
         assumptions: COMMON_ASSUMPTIONS.to_vec(),
         real: vec!["vm_memory GuestMemory::try_access and Bytes<GuestAddress>, GuestRegionMmap, GuestMemoryMmap, MmapRegion (compiled from /repo working tree)", "kernel mmap / memfd / pread"],
         stub: vec!["actor interleaving at operation granularity (seeded)"],
@@ -162,13 +162,13 @@ pub fn checks() -> Vec<Check> {
                 vec![Part { name: gm::DIRTY_GM.name(), xen: false, quick: 500_000, thorough: 20_000_000 }, Part { name: mem::DIRTY_SLICE.name(), xen: false, quick: 500_000, thorough: 20_000_000 }]
             },
             rule: if prop == "C05" {
-                "runs are seeded histories of up to 10 write-type and read-type operations at guest-memory, region and derived-slice level (written data is the complement of the current contents), descriptor reads with injected syscall results, scripted readers that fail part-way, interleaved with bitmap resets/harvests, on 1-3 regions with real AtomicBitmaps (plain or Option) of page sizes 1, 2, 3, 16, 64, 4096 or larger than the region; oracle: every byte whose value changed is dirty in the owning region's bitmap, and a failed descriptor read leaves its whole target dirty; distinct = distinct event-log hash; non-trivial = at least one operation succeeded and one was rejected or cut off"
+                "runs are seeded histories of up to 10 write-type and read-type operations at guest-memory, region and derived-slice level (written data is the complement of the current contents), descriptor reads with injected syscall results, scripted readers that fail part-way, interleaved with bitmap resets/harvests, on 1-3 regions with real AtomicBitmaps (plain or Option) of page sizes 1, 2, 3, 16, 64, 4096 or larger than the region; oracle: every byte whose value changed is dirty in the owning region's bitmap, and a failed descriptor read leaves its whole target dirty; third part S-dirty/race: a writer coroutine (every tracked write entry point, descriptor reads that block in read(2)) against a harvester coroutine (get_and_reset + copy of the reported pages) switched at every guest access, bitmap word operation and blocked read, oracle = the copy assembled from the harvests equals guest memory after a last harvest; distinct = distinct event-log hash; non-trivial = at least one operation succeeded and one was rejected or cut off"
             } else {
                 "same runs as C05 with the precision oracle: the full bitmap after each operation equals the bitmap before it plus exactly the pages overlapping the written bytes (reads, loads, queries, derivations, stream writes out of memory and rejected requests mark nothing; only a failed descriptor read may mark its whole target; partially completed failing writes are left to C05); distinct = distinct event-log hash; non-trivial = at least one operation succeeded and one was rejected or cut off"
             },
             assumptions: COMMON_ASSUMPTIONS.to_vec(),
             real: vec!["vm_memory dirty tracking in volatile_memory / io / mmap, AtomicBitmap, RefSlice, Option<B> (compiled from /repo working tree)", "kernel mmap / memfd / read(2) when the injector passes through"],
-            stub: vec!["injected read(2) results at the H4 seam", "scripted readers", "actor interleaving at operation granularity (seeded)"],
+            stub: vec!["injected read(2) results at the H4 seam", "scripted readers", "actor interleaving at operation granularity (seeded)", "S-dirty/race: thread scheduling and blocking in read(2) (coroutines under the seeded scheduler; the harvester's page copy stands for the VMM's migration thread)"],
             needs_seam_events: true,
         });
         let _ = what;
@@ -191,7 +191,7 @@ pub fn checks() -> Vec<Check> {
     v.push(Check {
         prop: "C11",
         parts: vec![Part { name: hotplug::CONC.name(), xen: false, quick: 600_000, thorough: 30_000_000 }, Part { name: hotplug::SEQ.name(), xen: false, quick: 300_000, thorough: 10_000_000 }],
-        rule: "runs are 1-3 reader coroutines (memory(), clone the guard, into_inner, re-observe what they hold, drop) and 1-2 updater coroutines (lock, snapshot current, derive by insert/remove of a uniquely tagged region, write a generation tag, replace - or give the lock back without replacing) on one GuestMemoryAtomic and its clones, switched before every ArcSwap load/store, at every lock attempt and at every unlock; history oracle stamped with the global event sequence number: wholeness, stability, recency, no lost replacement, no deadlock; plus the sequential histories of S-hotplug/sequential over several handles cloned from the same replaceable memory (publish, clone, snapshot, guard clone, into_inner, replace, drop in any order), where every snapshot-derived handle must keep showing the map it was taken from and a snapshot taken now must show the last replacement; distinct = distinct event-log hash; non-trivial = a context switch inside an operation, at least one replacement and one observation",
+        rule: "runs are 1-3 reader coroutines (memory(), clone the guard, into_inner, re-observe what they hold, drop) and 1-2 updater coroutines (lock, snapshot current, derive by insert/remove of a uniquely tagged region, write a generation tag, replace - or give the lock back without replacing) on one GuestMemoryAtomic and its clones, switched before every ArcSwap load/store, at every lock attempt and at every unlock; history oracle stamped with the global event sequence number: wholeness, stability, recency, no lost replacement, no deadlock; plus the sequential histories of S-hotplug/sequential over several handles cloned from the same replaceable memory (publish, clone, snapshot, guard clone, into_inner, replace, drop in any order), where every snapshot-derived handle must keep showing the map it was taken from and a snapshot taken now must show the last replacement; updaters build the new map from a region list or derive it with remove_region / insert_region (last step published); every observed snapshot must agree with itself (find_region, read, num_regions, last_addr); distinct = distinct event-log hash; non-trivial = a context switch inside an operation, at least one replacement and one observation",
         assumptions: COMMON_ASSUMPTIONS.to_vec(),
         real: vec!["vm_memory::atomic (GuestMemoryAtomic, load guard, exclusive guard), GuestMemoryMmap (compiled from /repo working tree)", "arc-swap and std::sync::Mutex (real code, executed atomically between yield points; blocking replaced by a yielding try_lock loop)"],
         stub: vec!["thread scheduling and blocking on the update mutex (coroutines)"],
@@ -200,7 +200,7 @@ pub fn checks() -> Vec<Check> {
     v.push(Check {
         prop: "C15",
         parts: vec![Part { name: "S-build", xen: false, quick: 1_000_000, thorough: 40_000_000 }, Part { name: "S-build", xen: true, quick: 600_000, thorough: 30_000_000 }],
-        rule: "runs are 1-6 construction requests each: unix build - MmapRegion::build / from_file / new with sizes incl. 0, file lengths at end-1 / end / end+1, offsets around the overflow boundary, unaligned offsets, unseekable files, flag words from a safe palette with and without MAP_FIXED, injected mmap failures, build_raw with aligned and misaligned pointers, GuestRegionMmap::new with guest bases near 2^64; xen build - MmapRegion::from_range over every value of the low five Xen flag bits (plus random high bits), with/without file, zero/non-zero offset, with the emulated device and injected ioctl / mmap failures; distinct = distinct event-log hash; non-trivial = at least one request accepted and one rejected",
+        rule: "runs are 1-6 construction requests each: unix build - MmapRegion::build / from_file / new with sizes incl. 0, file lengths at end-1 / end / end+1, offsets around the overflow boundary, unaligned offsets, unseekable files, flag words from a safe palette with and without MAP_FIXED, injected mmap failures, build_raw with aligned and misaligned pointers, GuestRegionMmap::new with guest bases near 2^64; xen build - MmapRegion::from_range over every value of the low five Xen flag bits (plus random high bits), with/without file, zero/non-zero offset, with the emulated device and injected ioctl / mmap failures; unix requests also through MmapRegionBuilder (hugetlbfs hint, raw pointer, raw pointer + file offset), sizes up to 4 MiB, offsets around 2^63; distinct = distinct event-log hash; non-trivial = at least one request accepted and one rejected",
         assumptions: COMMON_ASSUMPTIONS.to_vec(),
         real: vec!["vm_memory::mmap (check_file_offset, MmapRegionBuilder::build/build_raw, GuestRegionMmap::new; xen: MmapRegion::from_range, MmapXen*, MmapXenFlags) compiled from /repo working tree", "kernel mmap / memfd / pipe / lseek / pread / pwrite when the injector passes through (where the kernel decides a flag combination, its real verdict is the reference)"],
         stub: vec!["injected mmap failures", "xen build: emulated gntdev/privcmd device, injected ioctl failures"],
@@ -209,7 +209,7 @@ pub fn checks() -> Vec<Check> {
     v.push(Check {
         prop: "C18",
         parts: vec![Part { name: "S-zero", xen: false, quick: 1_000_000, thorough: 40_000_000 }, Part { name: "S-zero", xen: true, quick: 600_000, thorough: 30_000_000 }],
-        rule: "runs are up to 10 zero-length requests (empty buffers, zero-sized objects, zero-count stream transfers, copies of zero elements and of the crate-provided zero-sized element types) at slice, region and guest-memory level - and, in the xen build, on grant / foreign regions mapped in advance and on demand - at mapped addresses, one past a region, in a hole, 0 and the maximum address, on empty containers, interleaved at operation granularity with another actor's non-empty writes; distinct = distinct event-log hash; non-trivial = at least one request succeeded and (one was refused or more than three were issued)",
+        rule: "runs are up to 10 zero-length requests (empty buffers, zero-sized objects, zero-count stream transfers, copies of zero elements and of the crate-provided zero-sized element types) at slice, region and guest-memory level - and, in the xen build, on grant / foreign regions mapped in advance and on demand - at mapped addresses, one past a region, in a hole, 0 and the maximum address, on empty containers, interleaved at operation granularity with another actor's non-empty writes; stream endpoints that hold data, are drained / full or are cursors at their end; on Xen regions any map request of a zero-length access fails now and then; distinct = distinct event-log hash; non-trivial = at least one request succeeded and (one was refused or more than three were issued)",
         assumptions: COMMON_ASSUMPTIONS.to_vec(),
         real: vec!["vm_memory Bytes implementations of VolatileSlice / GuestRegionMmap / GuestMemory, copy helpers, xen temporary mappings (compiled from /repo working tree, both builds)"],
         stub: vec!["xen build: emulated gntdev/privcmd device and simulated MMU", "actor interleaving at operation granularity (seeded)"],
